@@ -4,6 +4,7 @@
 //!     {"dump": <dump.rs JSON of the tree>,
 //!      "svg": <Tree::to_string, default options>,
 //!      "svg_pt": <Tree::to_string with preserve_text>,
+//!      "write_panic": <message if Tree::to_string panicked, else null>,
 //!      "dbg_obb": <number of `ObjectBoundingBox` occurrences in the Debug rendering of the whole tree>}
 //!   or {"error": msg}.
 //!
@@ -30,18 +31,32 @@ fn op_tree(payload: &str) -> String {
     if d.len() > 6_000_000 {
         return format!("{{\"too_big\":{}}}", d.len());
     }
-    let svg = tree.to_string(&usvg::WriteOptions::default());
-    let mut wo = usvg::WriteOptions::default();
-    wo.preserve_text = true;
-    let svg_pt = tree.to_string(&wo);
+    // the writer indexes chunk text by span offsets: on an invalid tree it panics; the dump must still be judged
+    let write = |preserve_text: bool| -> Result<String, String> {
+        let t = std::panic::AssertUnwindSafe(&tree);
+        std::panic::catch_unwind(move || {
+            let mut wo = usvg::WriteOptions::default();
+            wo.preserve_text = preserve_text;
+            t.to_string(&wo)
+        })
+        .map_err(panic_msg)
+    };
+    let (svg, svg_pt) = (write(false), write(true));
+    let mut wp = String::new();
+    for r in [&svg, &svg_pt] {
+        if let Err(e) = r {
+            wp = e.clone();
+        }
+    }
     let dbg = format!("{:?}", tree.root());
     let n = dbg.matches("ObjectBoundingBox").count();
     format!(
-        "{{\"dump\":{},\"svg\":{},\"svg_pt\":{},\"dbg_obb\":{}}}",
+        "{{\"dump\":{},\"svg\":{},\"svg_pt\":{},\"dbg_obb\":{},\"write_panic\":{}}}",
         d,
-        dump::esc(&svg),
-        dump::esc(&svg_pt),
-        n
+        dump::esc(&svg.unwrap_or_else(|_| "<svg xmlns=\"http://www.w3.org/2000/svg\"/>".to_string())),
+        dump::esc(&svg_pt.unwrap_or_else(|_| "<svg xmlns=\"http://www.w3.org/2000/svg\"/>".to_string())),
+        n,
+        if wp.is_empty() { "null".to_string() } else { dump::esc(&wp) }
     )
 }
 
